@@ -2,4 +2,4 @@ From Coq Require Import Extraction ExtrOcamlBasic.
 From SV Require Import Base.Bytes Base.IO Model.Headers Model.IOSched Model.Response Model.Conn Model.Server Model.ConnInst Spec.ConnSpec Spec.RespParse.
 Extraction Language OCaml.
 Extraction "c04_model.ml" handle_conn_inst conn_new resp_new resp_text resp_drop mem_body reason_text_ok mk_cin mk_in
-  parse_response.
+  parse_response panic_code panic_text.
